@@ -196,6 +196,40 @@ def chameleon_import_orders(root):
     return result('C09.chameleon_import_orders', 'a chameleon document included by a namespaced and by a no-namespace schema; the three imports of the main schema in all 6 orders x 2 classes x 4 probes', n, fails, exhaustive=True)
 
 
+def override_layouts(root):
+    """XSD 1.1 xs:override: the overridden declarations are replaced wherever they live in the overridden document or in the documents it includes (Structures 4.2.5): moving
+    a declaration from the overridden document into a document it includes does not change the schema"""
+    import xmlschema
+    H = f'<xs:schema {XS} targetNamespace="urn:t" xmlns:t="urn:t" elementFormDefault="qualified">'
+    decl = {'code': '<xs:element name="code" type="xs:string"/>', 'Size': '<xs:simpleType name="Size"><xs:restriction base="xs:int"><xs:maxInclusive value="10"/></xs:restriction></xs:simpleType>',
+            'size': '<xs:element name="size" type="t:Size"/>', 'G': '<xs:attributeGroup name="G"><xs:attribute name="a" type="xs:int"/></xs:attributeGroup>'}
+    over = ('<xs:element name="code" type="xs:int"/><xs:simpleType name="Size"><xs:restriction base="xs:int"><xs:maxInclusive value="100"/></xs:restriction></xs:simpleType>'
+            '<xs:attributeGroup name="G"><xs:attribute name="a" type="xs:boolean"/></xs:attributeGroup>')
+    rootdecl = '<xs:element name="r"><xs:complexType><xs:sequence><xs:element ref="t:code"/><xs:element ref="t:size"/></xs:sequence><xs:attributeGroup ref="t:G"/></xs:complexType></xs:element>'
+    probes = ['<t:r xmlns:t="urn:t" a="true"><t:code>5</t:code><t:size>50</t:size></t:r>', '<t:r xmlns:t="urn:t" a="1"><t:code>x</t:code><t:size>500</t:size></t:r>', '<t:r xmlns:t="urn:t" a="7"><t:code>5</t:code><t:size>5</t:size></t:r>']
+    fails = []; n = 0; out = {}
+    for layout, inner in (('flat', []), ('code-included', ['code']), ('all-included', ['code', 'Size', 'size', 'G']), ('two-levels', ['code', 'G'])):
+        n += 1
+        d = os.path.join(root, f'override_{layout}'); os.makedirs(d)
+        if layout == 'two-levels':
+            open(os.path.join(d, 'inner2.xsd'), 'w').write(H + decl['code'] + '</xs:schema>')
+            open(os.path.join(d, 'inner.xsd'), 'w').write(H + '<xs:include schemaLocation="inner2.xsd"/>' + decl['G'] + '</xs:schema>')
+        elif inner: open(os.path.join(d, 'inner.xsd'), 'w').write(H + ''.join(decl[k] for k in inner) + '</xs:schema>')
+        open(os.path.join(d, 'target.xsd'), 'w').write(H + ('<xs:include schemaLocation="inner.xsd"/>' if inner else '') + ''.join(v for k, v in decl.items() if k not in inner) + rootdecl + '</xs:schema>')
+        open(os.path.join(d, 'main.xsd'), 'w').write(H + f'<xs:override schemaLocation="target.xsd">{over}</xs:override></xs:schema>')
+        try:
+            s = xmlschema.XMLSchema11(os.path.join(d, 'main.xsd'))
+            out[layout] = (sorted((type(c).__name__, c.name, getattr(getattr(c, 'type', None), 'name', None)) for c in s.maps.iter_globals() if c.name and c.name.startswith('{urn:t}')),
+                           [([e.reason[:60] for e in s.iter_errors(p)], repr(s.decode(p, validation='lax')[0])) for p in probes])
+        except Exception as e: out[layout] = ('EXC', type(e).__name__, str(e)[:120])
+    if out['flat'] and out['flat'][0] == 'EXC': raise RuntimeError(f'the reference layout does not build: {out["flat"]}')
+    if out['flat'][1][0][0]: raise RuntimeError('the override is not applied in the reference layout (the first probe is valid only with the overriding declarations)')
+    for layout, got in out.items():
+        if got != out['flat']: fails.append(dict(case=dict(override_layout=layout), observed=got if got[0] == 'EXC' else ('globals differ' if got[0] != out['flat'][0] else 'probe results differ: ' + str(got[1][0])[:120]),
+                                                 required='the same schema as with every overridden declaration in the overridden document itself'))
+    return result('C09.override_reaches_included_documents', '4 layouts of an XSD 1.1 override (the overridden element / type / attribute group in the overridden document, in a document it includes, two levels down) x 3 probes', n, fails, exhaustive=True)
+
+
 def run(tier, seed, open_findings):
     root = tempfile.mkdtemp(prefix='verif_c09_')
     try:
@@ -208,7 +242,7 @@ def run(tier, seed, open_findings):
             if got != refs[ver]:
                 diff = got if got and got[0] == 'EXC' else ('globals differ' if got[0] != refs[ver][0] else 'probe results differ')
                 fails.append(dict(case=dict(ver=ver, kind=kind, seed=sd), observed=diff, required='same global components, errors and data as the reference arrangement'))
-        return [chameleon_import_orders(root), defined_attribute_wildcard(root, open_findings), result('C09.arrangements', f'{len(jobs)} arrangements ({", ".join(KINDS)}) x {len(PROBES)} probe instances, both classes', len(jobs) * len(PROBES), fails,
+        return [override_layouts(root), chameleon_import_orders(root), defined_attribute_wildcard(root, open_findings), result('C09.arrangements', f'{len(jobs)} arrangements ({", ".join(KINDS)}) x {len(PROBES)} probe instances, both classes', len(jobs) * len(PROBES), fails,
                        samples=[dict(kind='spell', note='the same file included twice under two spellings')], distinct=len(jobs))]
     finally:
         shutil.rmtree(root, ignore_errors=True)
@@ -217,6 +251,8 @@ def run(tier, seed, open_findings):
 def replay(check_name, case):
     root = tempfile.mkdtemp(prefix='verif_c09_')
     try:
+        if case.get('override_layout'):
+            r = override_layouts(root); mine = [f for f in r['failures'] if f['case'] == case]; return dict(ok=not mine, observed=mine[:1], required='same schema in every layout')
         if case.get('chameleon'):
             r = chameleon_import_orders(root); mine = [f for f in r['failures'] if f['case'] == case]; return dict(ok=not mine, observed=mine[:1], required='same components in every import order')
         if case.get('defined_attr'):
